@@ -403,6 +403,7 @@ def main(tier: str, seed: int, replay: str | None = None) -> int:
     C.force_repo_on_path()
     rep = C.Report("C04", tier, seed)
     rep.proof_stage()
+    rep.proof_stage("C04_sub")      # ... and for operators with subtype constraints x <= A / x < A
     rep.proof_stage("C04_core")     # every node well-typed, leaves are instances, annotations hold - unconditionally for constraint-free operators
     rng = random.Random(seed)
     nh, npl = (40, 80) if tier == "quick" else (150, 200)
